@@ -253,6 +253,27 @@ def run_direct(case):
                 break
     if path.exists():
         path.unlink()
+    # the uniform-sampler path (CMSGen through pycmsgen) on the same random formula, with the support reaching up to
+    # the highest variable in half of the cases (compiled designs always have auxiliary variables above it)
+    if clauses and top > 0:
+        sup2 = top if rng.random() < 0.5 else max(1, support)
+        tr2 = taps.Trace()
+        with taps.solver_boundary(tr2):
+            sols2, err2, _ = O.quiet(su.sample_uniform, 3, CNF(clauses), top, sup2, [], False, True)
+        if err2 is None:
+            cv, cc = [], {}
+            check_trace(tr2, cv, cc)
+            viol += cv
+            for k, v in cc.items():
+                counters[k] = counters.get(k, 0) + v
+            models = [[v if (v < len(e["model"]) and e["model"][v]) else -v for v in range(1, sup2 + 1)]
+                      for e in tr2.of("pycmsgen_solve") if e["sat"]]
+            got = [list(s_.assignment) for s_ in (sols2 or [])]
+            counters["uniform_direct_samples"] = len(got)
+            if got != models[:len(got)]:
+                viol.append({"kind": "parsed_output_differs",
+                             "msg": "CMSGen samples %s differ from the solver's models on 1..%d %s (formula %s)"
+                                    % (got[:2], sup2, models[:2], clauses[:4])})
     # crafted solver output lines
     for _ in range(3):
         n = rng.randint(1, 8)
